@@ -209,7 +209,7 @@ func classMux(c MCase) fx.Class {
 }
 
 func TestMuxerTable(t *testing.T) {
-	fx.Run(t, fx.Spec[MCase]{Prop: "C06", Name: "muxer_table", Quick: 1200, Thorough: 60000, Gen: genMux, Run: runMux, Class: classMux})
+	fx.Run(t, fx.Spec[MCase]{Prop: "C06", Name: "muxer_table", Journal: true, Quick: 1200, Thorough: 60000, Gen: genMux, Run: runMux, Class: classMux})
 }
 
 var _ = bufio.NewReader
